@@ -9,7 +9,8 @@
 //!  * `compass_app::apply_output_processing` with real `TraversalPlugin::from_file` (geometry table written as a
 //!    WKT file under work/), `SummaryOutputPlugin` and `UUIDOutputPlugin` on hand-made `SearchAppResult`s and a
 //!    real `SearchInstance`.
-//! What the real code produced is parsed back (WKT via the `wkt` crate, WKB hex via the `wkb` crate, GeoJSON and
+//! What the real code produced is parsed back (WKT via the `wkt` crate, WKB hex via the `wkb` crate — the hex text
+//! itself is also compared, character for character, with the model's encoder — GeoJSON and
 //! JSON via serde_json) into (format, edge ids, payload bit patterns, points as f32 bit patterns) and printed as
 //! one canonical line which the Lean model must reproduce textually. Tree outputs come out of a `HashMap`; their
 //! entries are sorted (lexicographically as number sequences) on both sides.
@@ -425,12 +426,43 @@ fn parse_wkb(s: &str) -> Result<Geometry<f64>, String> {
     Ok(g)
 }
 
+/// the hex text of a multilinestring with its member records in sorted order (the hash map's order is
+/// unspecified): 18 header characters, then every member record (`01 02000000 n points`) as its own token
+fn canonical_multi_hex(text: &str) -> Result<String, String> {
+    let bytes = unhex(text)?;
+    if bytes.len() < 9 {
+        return Err("wkb-short".into());
+    }
+    let mut members: Vec<String> = vec![];
+    let mut at = 9;
+    while at < bytes.len() {
+        if at + 9 > bytes.len() {
+            return Err("wkb-member-header".into());
+        }
+        let n = u32::from_le_bytes([bytes[at + 5], bytes[at + 6], bytes[at + 7], bytes[at + 8]]) as usize;
+        let end = at + 9 + 16 * n;
+        if end > bytes.len() {
+            return Err("wkb-member-short".into());
+        }
+        members.push(text[2 * at..2 * end].to_string());
+        at = end;
+    }
+    members.sort();
+    let mut out = text[..18].to_string();
+    for m in members {
+        out.push(' ');
+        out.push_str(&m);
+    }
+    Ok(out)
+}
+
 enum ROut {
     Ids(Vec<u64>),
     Recs(Vec<EtP>),
     Feats(Vec<(u64, EtP, Vec<Pt>)>),
     Wkt(Vec<Pt>),
-    Wkb(Vec<Pt>),
+    /// the points decoded by the `wkb` crate, and the stored hex text itself
+    Wkb(Vec<Pt>, String),
 }
 
 fn parse_route_out(fmt: &str, v: &Value) -> Result<ROut, String> {
@@ -448,10 +480,13 @@ fn parse_route_out(fmt: &str, v: &Value) -> Result<ROut, String> {
             let l = LineString::<f32>::try_from_wkt_str(s).map_err(|_| "wkt-parse".to_string())?;
             Ok(ROut::Wkt(line_of_geo32(&l)))
         }
-        "wkb" => match parse_wkb(v.as_str().ok_or("wkb-not-string")?)? {
-            Geometry::LineString(l) => Ok(ROut::Wkb(line_of_geo64(&l)?)),
-            _ => Err("wkb-not-linestring".into()),
-        },
+        "wkb" => {
+            let text = v.as_str().ok_or("wkb-not-string")?;
+            match parse_wkb(text)? {
+                Geometry::LineString(l) => Ok(ROut::Wkb(line_of_geo64(&l)?, text.to_string())),
+                _ => Err("wkb-not-linestring".into()),
+            }
+        }
         _ => Err("format".into()),
     }
 }
@@ -481,7 +516,7 @@ fn show_route_out(o: &ROut) -> String {
             format!("feats {}", join(&v))
         }
         ROut::Wkt(l) => format!("wkt {}", join(&num_line(l))),
-        ROut::Wkb(l) => format!("wkb {}", join(&num_line(l))),
+        ROut::Wkb(l, text) => format!("wkb {} hex {}", join(&num_line(l)), text),
     }
 }
 
@@ -490,7 +525,8 @@ enum TOut {
     Recs(Vec<(u64, EtP)>),
     Feats(Vec<(u64, EtP, Vec<Pt>)>),
     Wkt(Vec<Vec<Pt>>),
-    Wkb(Vec<Vec<Pt>>),
+    /// the members decoded by the `wkb` crate, and the stored hex text with its member records sorted
+    Wkb(Vec<Vec<Pt>>, String),
 }
 
 fn parse_tree_out(fmt: &str, v: &Value) -> Result<TOut, String> {
@@ -531,10 +567,13 @@ fn parse_tree_out(fmt: &str, v: &Value) -> Result<TOut, String> {
             }
             Ok(TOut::Wkt(mine))
         }
-        "wkb" => match parse_wkb(v.as_str().ok_or("wkb-not-string")?)? {
-            Geometry::MultiLineString(m) => Ok(TOut::Wkb(m.0.iter().map(line_of_geo64).collect::<Result<_, _>>()?)),
-            _ => Err("wkb-not-multilinestring".into()),
-        },
+        "wkb" => {
+            let text = v.as_str().ok_or("wkb-not-string")?;
+            match parse_wkb(text)? {
+                Geometry::MultiLineString(m) => Ok(TOut::Wkb(m.0.iter().map(line_of_geo64).collect::<Result<_, _>>()?, canonical_multi_hex(text)?)),
+                _ => Err("wkb-not-multilinestring".into()),
+            }
+        }
         _ => Err("format".into()),
     }
 }
@@ -564,7 +603,7 @@ fn show_tree_out(o: &TOut) -> String {
         ),
         TOut::Feats(fs) => show_sorted("feats", fs.iter().map(feat_nums).collect()),
         TOut::Wkt(ls) => show_sorted("wkt", ls.iter().map(|l| num_line(l)).collect()),
-        TOut::Wkb(ls) => show_sorted("wkb", ls.iter().map(|l| num_line(l)).collect()),
+        TOut::Wkb(ls, canon) => format!("{} hex {}", show_sorted("wkb", ls.iter().map(|l| num_line(l)).collect()), canon),
     }
 }
 
@@ -647,7 +686,7 @@ fn check_route(ctx: &mut Ctx, idx: usize, site: &str, fmt: &str, table: &[Vec<Pt
                         }
                     }
                 }
-                ROut::Wkt(l) | ROut::Wkb(l) => {
+                ROut::Wkt(l) | ROut::Wkb(l, _) => {
                     if !same_pts(l, want_geom.as_deref().unwrap_or(&[])) {
                         ctx.fail(
                             idx,
@@ -687,7 +726,7 @@ fn check_tree(ctx: &mut Ctx, idx: usize, site: &str, fmt: &str, table: &[Vec<Pt>
                 TOut::Ids(v) => v.len(),
                 TOut::Recs(v) => v.len(),
                 TOut::Feats(v) => v.len(),
-                TOut::Wkt(v) | TOut::Wkb(v) => v.len(),
+                TOut::Wkt(v) | TOut::Wkb(v, _) => v.len(),
             };
             if n != tree.len() {
                 ctx.fail(idx, &format!("{}/entry-count", site), format!("format {}: {} entries for {} branches", fmt, n, tree.len()));
@@ -731,7 +770,7 @@ fn check_tree(ctx: &mut Ctx, idx: usize, site: &str, fmt: &str, table: &[Vec<Pt>
                         ctx.fail(idx, &format!("{}/geometry", site), "geo_json: a feature's geometry is not the row of its id".into());
                     }
                 }
-                TOut::Wkt(v) | TOut::Wkb(v) => {
+                TOut::Wkt(v) | TOut::Wkb(v, _) => {
                     if sorted(&v.iter().map(|l| num_line(l)).collect::<Vec<_>>()) != want_lines {
                         ctx.fail(idx, &format!("{}/geometry", site), format!("{}: the linestrings are not the rows of the branch edges", fmt));
                     }
@@ -2363,6 +2402,27 @@ fn gen_fmt_param(rng: &mut Rng) -> Option<Value> {
         7 => Some(json!(["wkt"])),
         8 => Some(json!({"type": "wkt"})),
         9 => Some(json!(["WKT", "GeoJson", "geojson", "edge-id", "shapefile", "", "Json ", "edgeid"][rng.below(8)])),
+        // serde's externally tagged form of a unit variant: a single-key object `{"<name>": null}` is accepted too
+        10 | 11 => {
+            let mut m = serde_json::Map::new();
+            m.insert(FORMATS[rng.below(5)].0.to_string(), Value::Null);
+            Some(Value::Object(m))
+        }
+        12 => Some(
+            [
+                json!({"wkt": 1}),
+                json!({"wkt": []}),
+                json!({"wkt": {}}),
+                json!({"wkt": "wkt"}),
+                json!({"wkt": false}),
+                json!({"wkt": null, "wkb": null}),
+                json!({"json": null, "x": 1}),
+                json!({}),
+                json!({"WKT": null}),
+                json!({"shapefile": null}),
+            ][rng.below(10)]
+            .clone(),
+        ),
         _ => Some(json!(FORMATS[rng.below(5)].0)),
     }
 }
@@ -2383,6 +2443,11 @@ fn fmt_of_param(p: &Option<Value>) -> Result<Option<usize>, ()> {
     match p {
         None => Ok(None),
         Some(Value::String(s)) => FORMATS.iter().position(|(n, _)| n == s).map(Some).ok_or(()),
+        // externally tagged unit variant: exactly one key, a format name, holding `null`
+        Some(Value::Object(m)) if m.len() == 1 => match m.iter().next() {
+            Some((k, Value::Null)) => FORMATS.iter().position(|(n, _)| n == k).map(Some).ok_or(()),
+            _ => Err(()),
+        },
         Some(_) => Err(()),
     }
 }
@@ -2537,6 +2602,18 @@ fn new_streams(ctx: &mut Ctx, dir: &str) {
             if let Some(idx) = ctx.begin() {
                 load_case(ctx, idx, dir, &rows, &shape);
             }
+        }
+    }
+    // the single-key object form of a format name (audit witness): builds exactly like the plain name
+    for (route, tree) in [
+        (Some(json!({"wkt": null})), None),
+        (Some(json!({"geo_json": null})), Some(json!({"edge_id": null}))),
+        (Some(json!({"wkt": 1})), None),
+        (None, Some(json!({"wkt": null, "wkb": null}))),
+        (Some(json!({})), None),
+    ] {
+        if let Some(idx) = ctx.begin() {
+            build_traversal_case(ctx, idx, dir, &FileParam::File(vec![GRow::Well(l0.clone(), 0), GRow::Well(l1.clone(), 0)], clean), &route, &tree);
         }
     }
     // witness of the (fixed) line_count hang: a two-row gzip geometry file and a uuid file cut off in the middle
@@ -2929,6 +3006,22 @@ pub fn run(ctx: &mut Ctx) -> &'static str {
             let s = base.below(n_rows);
             for (j, e) in route.iter_mut().enumerate() {
                 e.edge = (s + j) % n_rows;
+            }
+        }
+        let mut table = table;
+        if base.chance(1, 8) {
+            // zeros, a negative zero, subnormals and the ends of the f32 range: the f32 -> f64 widening of the WKB
+            // and GeoJSON writers and the WKT printing meet every class of finite value
+            let exotic = [0.0f32, -0.0, f32::from_bits(1), f32::from_bits(0x0040_0001), -f32::from_bits(0x007f_ffff), f32::MIN_POSITIVE, f32::MAX, f32::MIN, 1.0e-40, 16777216.0];
+            for l in table.iter_mut() {
+                for p in l.iter_mut() {
+                    if base.chance(1, 3) {
+                        p.0 = exotic[base.below(exotic.len())];
+                    }
+                    if base.chance(1, 3) {
+                        p.1 = exotic[base.below(exotic.len())];
+                    }
+                }
             }
         }
         for f in 0..5 {
